@@ -1,4 +1,5 @@
 import CvssVerif.Proofs.Accept3
+import CvssVerif.Proofs.Deleg
 /-
   C07 — v3 decoders accept exactly the well-formed v3.0/v3.1 vectors of their level.
 
@@ -94,5 +95,12 @@ example : Spec3.wf3 .environmental b!"CVSS:3.0/S:U/C:H/MAV:X/I:H/A:H/AV:N/AC:L/P
 example : Spec3.wf3 .base b!"CVSS:3.1/AV:N/AC:L/PR:N/UI:N/S:U/C:H/I:H/A:H/E:F" = false := by decide
 example : Spec3.wf3 .temporal b!"CVSS:3.1/AV:N/AC:L/PR:N/UI:N/S:U/C:H/I:H/A:H/" = false := by decide
 example : Spec3.wf3 .base b!"CVSS:3.1/av:N/AC:L/PR:N/UI:N/S:U/C:H/I:H/A:H" = false := by decide
+
+/-- **Model fidelity: delegation.** The model's `decodeOne` (one lookup among the metrics of all
+    levels up to the decoder's) equals the literal structure of the Go code, where each level's
+    `decodeOne` first calls the lower level's and handles the token itself only on "not supported
+    metric". -/
+theorem delegation (L : Level) (o : V3.Obj3) (tok : Bytes) : V3.decodeOneLit L o tok = V3.decodeOne L o tok :=
+  V3.decodeOneLit_eq L o tok
 
 end CvssVerif.Props.C07
